@@ -320,6 +320,10 @@ Proof.
     destruct (do_start s h cb path interval fail); auto.
   - destruct (valid s h && negb (h_closed (geth s h))); cbn [fst]; auto. apply R4_do_stop; auto.
   - destruct (valid s h && negb (h_closing (geth s h))); cbn [fst]; auto. apply R4_do_close; auto.
+  - cbn [fst]. apply (do_walk_inv (R4 ext extc hole)).
+    + intros s0 h0 _ H0. apply R4_do_close; auto.
+    + intros s0 l H0. eapply R4_same; [| | | | |exact H0]; reflexivity.
+    + exact H.
 Qed.
 
 Lemma R_apis ext extc hole os : forall s, R ext extc hole s -> R ext extc hole (fst (apis s os)).
@@ -625,9 +629,7 @@ Proof.
   intros [S H]. split.
   - assert (P1 : forall s0 c, SI s0 -> SI (upd_c s0 c (c_set_timer TReady))).
     { intros s0 c H0. apply SI_upd_c; auto. cbn. discriminate. }
-    assert (P2 : forall s0 l, SI s0 -> SI (set_ut s0 l)).
-    { intros s0 l H0. eapply SI_same; [| |exact H0]; reflexivity. }
-    exact (collect_inv SI P1 P2 items s S).
+    exact (collect_inv SI P1 items s S).
   - unfold collect.
     assert (X : forall l s0 ext, R4 ext [] None s0 ->
               R4 (rev (ctxs_of l) ++ ext) [] None
@@ -644,7 +646,7 @@ Proof.
                                           | RCtx c => upd_c s c (c_set_timer TReady)
                                           | RUser _ => s end) items s)).
     { eapply R4_ext_incl; [|exact Y]. intros c I. apply in_rev in I. exact I. }
-    destruct items; [exact Z|]. eapply R4_same; [| | | | |exact Z]; reflexivity.
+    exact Z.
 Qed.
 
 Lemma R_fire beh l : forall s cnt,
@@ -653,8 +655,13 @@ Proof.
   induction l as [|[c|id] l IH]; intros s cnt H; cbn [fire_ready]; auto.
   - apply IH. destruct H as [S H]. split; [apply SI_timer_fire; auto|].
     apply R4_timer_fire. exact H.
-  - pose proof (R_apis (ctxs_of l) [] None (beh cnt) s H) as X.
-    destruct (apis s (beh cnt)) as [s1 e1]. cbn [fst] in X.
+  - cbn [ctxs_of flat_map app] in H. fold (ctxs_of l) in H.
+    destruct (ut_has s id); [|apply IH; exact H].
+    assert (H0 : R (ctxs_of l) [] None (ut_remove s id)).
+    { destruct H as [S H]. split; [eapply SI_same; [| |exact S]; reflexivity|].
+      eapply R4_same; [| | | | |exact H]; reflexivity. }
+    pose proof (R_apis (ctxs_of l) [] None (beh cnt) _ H0) as X.
+    destruct (apis (ut_remove s id) (beh cnt)) as [s1 e1]. cbn [fst] in X.
     pose proof (IH s1 (S cnt) X) as Y. destruct (fire_ready true beh l s1 (S cnt)) as [[s2 e2] n2]. exact Y.
 Qed.
 
@@ -762,9 +769,20 @@ Proof.
   unfold geth. rewrite nth_overflow by auto. reflexivity.
 Qed.
 
-Lemma api_noop s o : AC s -> noinit o -> fst (api s o) = s.
+Lemma walk_noop s : AC s -> ut s = [] -> do_walk s = s.
 Proof.
-  intros A Ni. destruct o; cbn [api fst]; auto; try contradiction.
+  intros A U. unfold do_walk.
+  assert (X : forall l, Forall (fun h => (h < length (hs s))%nat) l ->
+              fold_left (fun s h => if h_closing (geth s h) then s else do_close s h) l s = s).
+  { induction l as [|h l IH]; intros F; cbn [fold_left]; auto.
+    inversion F as [|a b Fh Fl]; subst. destruct (A h Fh) as [Cl _]. rewrite Cl. auto. }
+  rewrite X; [rewrite U; reflexivity|].
+  apply Forall_forall. intros h I. apply walk_targets_lt; auto.
+Qed.
+
+Lemma api_noop s o : AC s -> ut s = [] -> noinit o -> fst (api s o) = s.
+Proof.
+  intros A U Ni. destruct o; cbn [api fst]; auto; try contradiction; try (apply walk_noop; auto).
   - unfold valid. destruct (Nat.ltb_spec h (length (hs s))) as [L|L]; cbn [andb]; auto.
     destruct (A h L) as [Cl _]. rewrite Cl. reflexivity.
   - destruct (valid s h && negb (h_closed (geth s h))); cbn [fst]; auto.
@@ -773,17 +791,18 @@ Proof.
     destruct (A h L) as [Cl _]. rewrite Cl. reflexivity.
 Qed.
 
-Lemma apis_noop os : forall s, AC s -> Forall noinit os -> fst (apis s os) = s.
+Lemma apis_noop os : forall s, AC s -> ut s = [] -> Forall noinit os -> fst (apis s os) = s.
 Proof.
-  induction os as [|o os IH]; intros s A F; cbn [apis]; auto.
+  induction os as [|o os IH]; intros s A U F; cbn [apis]; auto.
   inversion F as [|a b Fo Fr]; subst.
-  pose proof (api_noop s o A Fo) as X. destruct (api s o) as [s1 e1]. cbn [fst] in X. subst s1.
-  pose proof (IH s A Fr) as Y. destruct (apis s os) as [s2 e2]. exact Y.
+  pose proof (api_noop s o A U Fo) as X. destruct (api s o) as [s1 e1]. cbn [fst] in X. subst s1.
+  pose proof (IH s A U Fr) as Y. destruct (apis s os) as [s2 e2]. exact Y.
 Qed.
 
-Lemma user_cb_noop s ev beh cnt : AC s -> Forall noinit (beh cnt) -> fst (fst (user_cb s ev beh cnt)) = s.
+Lemma user_cb_noop s ev beh cnt :
+  AC s -> ut s = [] -> Forall noinit (beh cnt) -> fst (fst (user_cb s ev beh cnt)) = s.
 Proof.
-  intros A F. unfold user_cb. pose proof (apis_noop (beh cnt) s A F) as X.
+  intros A U F. unfold user_cb. pose proof (apis_noop (beh cnt) s A U F) as X.
   destruct (apis s (beh cnt)); exact X.
 Qed.
 
@@ -889,14 +908,17 @@ Proof.
       * apply (Uh (h_set_chain (c0 :: remove_nat c rest))). intros x; split; reflexivity.
 Qed.
 
-Lemma run_closing_AC q : forall s beh cnt, AC s -> (forall k, Forall noinit (beh k)) ->
+Lemma Fr_ut s s' : Fr s s' -> ut s = [] -> ut s' = [].
+Proof. intros (_ & _ & _ & _ & _ & _ & E) U. congruence. Qed.
+
+Lemma run_closing_AC q : forall s beh cnt, AC s -> ut s = [] -> (forall k, Forall noinit (beh k)) ->
   let s' := fst (fst (run_closing q s beh cnt)) in
   Fr s s' /\ (forall c, In (CTimer c) q -> (c < length (cs s))%nat -> c_freed (getc s' c) = true).
 Proof.
-  induction q as [|[c|h] q IH]; intros s beh cnt A B; cbn [run_closing].
+  induction q as [|[c|h] q IH]; intros s beh cnt A U B; cbn [run_closing].
   - cbn. split; [apply Fr_refl|]. intros c [].
   - destruct (timer_close_cb_Fr s c) as [F1 F2].
-    pose proof (IH (timer_close_cb s c) beh cnt (AC_Fr _ _ A F1) B) as X.
+    pose proof (IH (timer_close_cb s c) beh cnt (AC_Fr _ _ A F1) (Fr_ut _ _ F1 U) B) as X.
     destruct (run_closing q (timer_close_cb s c) beh cnt) as [[s2 e2] n2]. cbn [fst] in *.
     destruct X as [X1 X2]. split; [eapply Fr_trans; eauto|].
     intros c' [E|I] L.
@@ -906,9 +928,9 @@ Proof.
     assert (F0 : Fr s s0).
     { split; [|repeat split; auto; apply len_hs_upd_h].
       intros h'. unfold s0. rewrite geth_upd_h. destruct (Nat.eqb h h' && Nat.ltb h (length (hs s))); auto. }
-    pose proof (user_cb_noop s0 (EClosed h (live_of s h)) beh cnt (AC_Fr _ _ A F0) (B cnt)) as E.
+    pose proof (user_cb_noop s0 (EClosed h (live_of s h)) beh cnt (AC_Fr _ _ A F0) U (B cnt)) as E.
     destruct (user_cb s0 (EClosed h (live_of s h)) beh cnt) as [[s1 e1] n1]. cbn [fst] in E. subst s1.
-    pose proof (IH s0 beh n1 (AC_Fr _ _ A F0) B) as X.
+    pose proof (IH s0 beh n1 (AC_Fr _ _ A F0) U B) as X.
     destruct (run_closing q s0 beh n1) as [[s2 e2] n2]. cbn [fst] in *.
     destruct X as [X1 X2]. split; [eapply Fr_trans; eauto|].
     intros c' [E|I] L; [discriminate|]. apply X2; auto.
@@ -988,7 +1010,8 @@ Proof.
     - intros h P. destruct (G h P) as [Y|Y]; auto. }
   assert (Ac : AC sc) by exact Ab.
   pose proof (R_run_closing [] (closingq sb) sc beh n1 Hc) as C1.
-  pose proof (run_closing_AC (closingq sb) sc beh n1 Ac B) as C2. cbv zeta in C2.
+  assert (Uc : ut sc = []) by (change (ut sc) with (ut sb); eapply Fr_ut; [exact F1|exact U1]).
+  pose proof (run_closing_AC (closingq sb) sc beh n1 Ac Uc B) as C2. cbv zeta in C2.
   destruct (run_closing (closingq sb) sc beh n1) as [[sd e2] n2]. cbn [fst] in *.
   destruct C2 as (F2 & Fz).
   assert (Ad : AC sd) by (eapply AC_Fr; eauto).
@@ -1031,22 +1054,22 @@ Proof.
   rewrite E. split; [reflexivity|]. intros h. apply E.
 Qed.
 
-Lemma run_closing_empty q : forall s beh cnt, AC s -> allempty s -> (forall k, Forall noinit (beh k)) ->
+Lemma run_closing_empty q : forall s beh cnt, AC s -> ut s = [] -> allempty s -> (forall k, Forall noinit (beh k)) ->
   closingq (fst (fst (run_closing q s beh cnt))) = closingq s.
 Proof.
-  induction q as [|[c|h] q IH]; intros s beh cnt A E B; cbn [run_closing]; auto.
+  induction q as [|[c|h] q IH]; intros s beh cnt A U E B; cbn [run_closing]; auto.
   - destruct (timer_close_cb_empty s c E) as [Q E'].
     destruct (timer_close_cb_Fr s c) as [F1 _].
-    rewrite <- Q. apply IH; auto. eapply AC_Fr; eauto.
+    rewrite <- Q. apply IH; auto; [eapply AC_Fr; eauto|eapply Fr_ut; eauto].
   - set (s0 := upd_h s h h_set_closed).
     assert (F0 : Fr s s0).
     { split; [|repeat split; auto; apply len_hs_upd_h].
       intros h'. unfold s0. rewrite geth_upd_h. destruct (Nat.eqb h h' && Nat.ltb h (length (hs s))); auto. }
     assert (E0 : allempty s0).
     { intros h'. unfold s0. rewrite geth_upd_h. destruct (Nat.eqb h h' && Nat.ltb h (length (hs s))); apply E. }
-    pose proof (user_cb_noop s0 (EClosed h (live_of s h)) beh cnt (AC_Fr _ _ A F0) (B cnt)) as X.
+    pose proof (user_cb_noop s0 (EClosed h (live_of s h)) beh cnt (AC_Fr _ _ A F0) U (B cnt)) as X.
     destruct (user_cb s0 (EClosed h (live_of s h)) beh cnt) as [[s1 e1] n1]. cbn [fst] in X. subst s1.
-    pose proof (IH s0 beh n1 (AC_Fr _ _ A F0) E0 B) as Y.
+    pose proof (IH s0 beh n1 (AC_Fr _ _ A F0) U E0 B) as Y.
     destruct (run_closing q s0 beh n1) as [[s2 e2] n2]. cbn [fst] in *. exact Y.
 Qed.
 
@@ -1066,7 +1089,8 @@ Proof.
     with (closingq s).
   assert (Ac : AC sc) by exact A.
   assert (Ec : allempty sc) by exact E.
-  pose proof (run_closing_empty (closingq s) sc beh cnt Ac Ec B) as Q.
+  assert (Uc : ut sc = []) by exact U.
+  pose proof (run_closing_empty (closingq s) sc beh cnt Ac Uc Ec B) as Q.
   assert (Hc : R [] (closingq s) None sc).
   { destruct H as [S (N & C & I & G)]. split; [eapply SI_same; [| |exact S]; reflexivity|].
     split; [exact N|]. split; [exact C|]. split.
@@ -1080,7 +1104,7 @@ Proof.
       + discriminate.
     - intros h P. destruct (G h P) as [Y|Y]; auto. }
   pose proof (R_run_closing [] (closingq s) sc beh cnt Hc) as C1.
-  pose proof (run_closing_AC (closingq s) sc beh cnt Ac B) as C2. cbv zeta in C2.
+  pose proof (run_closing_AC (closingq s) sc beh cnt Ac Uc B) as C2. cbv zeta in C2.
   destruct (run_closing (closingq s) sc beh cnt) as [[sd e2] n2]. cbn [fst] in *.
   destruct C2 as (F2 & _).
   set (se := set_now sd (clock sd)).
@@ -1245,6 +1269,10 @@ Proof.
     destruct (do_start s h cb path interval fail); auto.
   - destruct (valid s h && negb (h_closed (geth s h))); cbn [fst]; auto. apply CI_do_stop; auto.
   - destruct (valid s h && negb (h_closing (geth s h))); cbn [fst]; auto. apply CI_do_close; auto.
+  - cbn [fst]. apply (do_walk_inv CI).
+    + intros s0 h0 _ H0. apply CI_do_close; auto.
+    + intros s0 l H0. exact H0.
+    + exact H.
 Qed.
 
 Lemma CI_apis os : forall s, CI s -> CI (fst (apis s os)).
@@ -1407,24 +1435,19 @@ Proof.
   destruct (h_chain (geth s h)); auto. destruct (timer_active _); reflexivity.
 Qed.
 
-Lemma ut_api s o : ut (fst (api s o)) = ut s.
+Lemma ut_api_close s h : ut (fst (api s (OClose h))) = ut s.
 Proof.
-  destruct o; cbn [api fst]; auto.
-  - destruct (valid s h && negb (h_closing (geth s h))); auto.
-    unfold do_start. destruct (h_active (geth s h)); auto.
-    destruct fail as [|[|[|[|f]]]]; reflexivity.
-  - destruct (valid s h && negb (h_closed (geth s h))); cbn [fst]; auto. apply ut_do_stop.
-  - destruct (valid s h && negb (h_closing (geth s h))); cbn [fst]; auto.
-    unfold do_close. set (s1 := do_stop _ h).
-    assert (E : ut s1 = ut s) by (unfold s1; rewrite ut_do_stop; reflexivity).
-    destruct (h_chain (geth s1 h)); exact E.
+  cbn [api]. destruct (valid s h && negb (h_closing (geth s h))); cbn [fst]; auto.
+  unfold do_close. set (s1 := do_stop _ h).
+  assert (E : ut s1 = ut s) by (unfold s1; rewrite ut_do_stop; reflexivity).
+  destruct (h_chain (geth s1 h)); exact E.
 Qed.
 
-Lemma ut_apis os : forall s, ut (fst (apis s os)) = ut s.
+Lemma ut_apis_close l : forall s, ut (fst (apis s (map OClose l))) = ut s.
 Proof.
-  induction os as [|o os IH]; intros s; cbn [apis]; auto.
-  pose proof (ut_api s o) as X. destruct (api s o) as [s1 e1]. cbn [fst] in X.
-  pose proof (IH s1) as Y. destruct (apis s1 os) as [s2 e2]. cbn [fst] in *. congruence.
+  induction l as [|h l IH]; intros s; cbn [map apis]; auto.
+  pose proof (ut_api_close s h) as X. destruct (api s (OClose h)) as [s1 e1]. cbn [fst] in X.
+  pose proof (IH s1) as Y. destruct (apis s1 (map OClose l)) as [s2 e2]. cbn [fst] in *. congruence.
 Qed.
 
 Theorem closes_clean_current : closes_clean_stmt true.
@@ -1439,7 +1462,7 @@ Proof.
   assert (HR' : R [] [] None (close_all s)) by (apply R_apis; exact HR).
   assert (HA : AC (close_all s)) by (apply close_all_AC; exact HC).
   assert (B' : forall k, Forall noinit (beh k)) by exact B.
-  assert (U : ut (close_all s) = []) by (unfold close_all; rewrite ut_apis; reflexivity).
+  assert (U : ut (close_all s) = []) by (unfold close_all; rewrite ut_apis_close; reflexivity).
   exact (drain_closes_clean 62 (close_all s) res beh 0%nat HR' HA B' U).
 Qed.
 
